@@ -234,6 +234,8 @@ def make_probe(log, depth, kid_factory, variant="plain"):
             log.append((depth, "A", n))
             if n in ("__yaqlization__", "__class__", "__dict__"):
                 return object.__getattribute__(self, n)
+            if n == "__unwrapped__":
+                raise AttributeError(n)      # yaql's marker on its own lambda wrappers: a host object has none
             return kid()
 
         def __getitem__(self, k):
@@ -640,8 +642,40 @@ PATH_NAMES_REG = ["len", "str", "isString", "toList", "first", "keys", "dict", "
 KW_KEYS = ["a", "x1", "__x", "{0}", "a b", "_y", "n\u00e9", "value", "__class__", ""]
 
 
+def lambda_fed(c):
+    """the model's `lam` flag: call() hands the (callable) probe as a VALUE to a Lambda-typed parameter of some
+    overload registered under the name: first argument / receiver, or a keyword naming such a parameter"""
+    from yaql.language import yaqltypes
+    import gen_effects
+    if c["kind"] not in ("PCallFn", "PCallMeth"):
+        return False
+    if "lam" not in _REG:
+        _REG["lam"] = {}
+        _, regs = gen_effects.registry()
+        for _, name, fd in regs:
+            vis = sorted([(pd.position if pd.position is not None else 10 ** 6, key, pd) for key, pd in fd.parameters.items()
+                          if not isinstance(pd.value_type, yaqltypes.HiddenParameterType) and key != "**"], key=lambda t: t[0])
+            first = bool(vis) and isinstance(vis[0][2].value_type, yaqltypes.Lambda)
+            kws = set()
+            for _, key, pd in vis:
+                if isinstance(pd.value_type, yaqltypes.Lambda):
+                    kws |= {pd.name, pd.alias, key}
+            star2 = fd.parameters.get("**")
+            anykw = star2 is not None and isinstance(star2.value_type, yaqltypes.Lambda)
+            for form, ok in (("PCallFn", fd.is_function), ("PCallMeth", fd.is_method)):
+                if ok:
+                    e = _REG["lam"].setdefault((form, name), {"first": False, "kws": set(), "anykw": False})
+                    e["first"] |= first
+                    e["kws"] |= kws
+                    e["anykw"] |= anykw
+    e = _REG["lam"].get((c["kind"], c["name"]))
+    if not e:
+        return False
+    return bool(e["first"] or (c.get("kwobj") and (e["anykw"] or (set(c.get("kw", [])) & e["kws"]))))
+
+
 def run_path(c):
-    """c: {sargs, kind, name, kw:[keys], kwobj: bool} -> observation ('reach', m) | ('denied', cls) | ('ran',)"""
+    """c: {sargs, kind, name, kw:[keys], kwobj: bool} -> ('reach', m) | ('denied', cls) | ('ran',) | ('invoked',)"""
     log = []
     obj = make_probe(log, 0, None)
     attach(obj, c["sargs"], False)
@@ -672,6 +706,8 @@ def run_path(c):
         if len(touched) != 1:
             return None, "members touched: %r" % (touched,)
         return ("reach", touched[0][2]), None
+    if any(d == 0 and k == "C" for d, k, _ in log):
+        return ("invoked",), None
     if err is None:
         return ("ran",), None
     cls = exn_class(err)
@@ -687,10 +723,11 @@ def path_term(c, obs):
     rt, pt = tables([c["name"]], [c["sargs"]])
     kw = gal.lst(gal.s(k) for k in c.get("kw", []))
     if c["kind"] in ("PCallFn", "PCallMeth"):
-        path = gal.app(c["kind"], gal.s(c["name"]), kw if c.get("kw") else "(@nil name)")
+        path = gal.app(c["kind"], gal.s(c["name"]), kw if c.get("kw") else "(@nil name)", gal.boolean(lambda_fed(c)))
     else:
         path = gal.app(c["kind"], gal.s(c["name"]))
-    o = {"reach": lambda: gal.app("PoReach", gal.s(obs[1])), "denied": lambda: gal.app("PoDenied", obs[1]), "ran": lambda: "PoRan"}[obs[0]]()
+    o = {"reach": lambda: gal.app("PoReach", gal.s(obs[1])), "denied": lambda: gal.app("PoDenied", obs[1]), "ran": lambda: "PoRan",
+         "invoked": lambda: "PoInvoked"}[obs[0]]()
     return ("{| pc_regex := %s; pc_pred := %s; pc_args := %s; pc_fns := %s; pc_meths := %s; pc_path := %s; pc_obs := %s |}" % (
         table_term(rt), table_term(pt), gal.opt(c["sargs"], yargs_term),
         gal.lst(gal.s(n) for n in used if n in fns) or "(@nil name)", gal.lst(gal.s(n) for n in used if n in meths) or "(@nil name)", path, o))
@@ -738,7 +775,10 @@ def path_correspondence(run):
     for i in bad:
         c, obs = meta[i]
         gated = c["sargs"] is not None and c["kind"] in PATH_FORM and c["sargs"][{"attr": "attrs", "method": "methods", "index": "indexer"}[PATH_FORM[c["kind"]]]]
-        if obs[0] == "reach" and not gated:
+        if obs[0] == "invoked":
+            kind, what = "violation", ("the host object itself is called through %s although it is not handed to a lambda "
+                                       "parameter by call() (outside known finding F20)" % c["kind"])
+        elif obs[0] == "reach" and not gated:
             kind, what = "violation", ("a member of an object whose settings do not open this form (or that is not yaqlized) is "
                                        "reached through %s" % c["kind"])
         else:
@@ -920,6 +960,12 @@ def oracle(run, deep):
 
 
 def classify(failure, known_entries):
+    """F20 (open): the canary is INVOKED from Lambda._call as the value of a lambda parameter, in an expression in
+    which it only occurs inside the arguments of call(...); nothing else was observed on it."""
+    if c07_sweep.in_f20_class(failure.data):
+        for k in known_entries:
+            if k.get("id") == "F20":
+                return k.get("line", "F20").replace("open: property=C07 ", "")
     return None
 
 
